@@ -182,6 +182,7 @@ func TestC14(t *testing.T) {
 		msg, labels, nt, problem := runC14(c)
 		if problem != "" {
 			st.Label("infrastructure-problem", 1)
+			fmt.Fprintf(os.Stderr, "C14 inconclusive run: %s\n", strings.SplitN(problem, "\n", 2)[0])
 		}
 		ops := 0
 		for _, s := range c.Clients {
